@@ -32,10 +32,10 @@ THEOREMS = {
     'C11_nameformat_objects': 'NameFormat(format) as an object, for EVERY format string: a syntax error of the parser is the error of the constructor; otherwise the constructor succeeds (BibTeXNameFormatError unreachable) with one Text / NamePart object per parsed part, and formatting ANY person with the objects gives what the fused formatParts gives on the parsed parts',
     'C11_objects_match_fused': 'format_name(name, format) computed through the objects (NameFormat(format).format(name), as the code does it) equals the fused model formatName of the other theorems, for every name and format string',
     'C11_any_person_matches_spec': 'NameFormat(format) applied to ANY person object (five arbitrary token lists: tokens may be empty or contain blanks, commas, unbalanced braces) yields exactly the outcome of the reference rule (Spec grammar + formatPieces) on that person: same string, nesting-limit error exactly where the rule is undefined, syntax error exactly when the format is outside the grammar, never an internal error (C11_matches_spec is the instance person = Person(name))',
-    'C11_abbreviate_is_C12': 'bibtex_first_letter / bibtex_abbreviate as the C11 model uses them are, for every string and separator, the Unicode-aware primitives of the C12 model (TeXU.bibtexFirstLetterG / bibtexAbbreviateG with the interpreter tables), which C12 ties to pybtex.bibtex.utils at function level and specifies (C12_first_letter_spec)',
-    'C11_builtin_through_caches': 'composition with the C18 model of builtins.py (_split_names and _format_name_and_reports behind memoize, FIFO eviction at the regenerated capacity): with split_name_list / format_name instantiated by the C11 models (hypotheses F.splitNames = splitNameList, F.formatOne = c11One), in EVERY cache state satisfying the memoize invariant and under capture() (hypothesis captured = some l), format.name$ returns what the cache-free formatNth says: "" + the no-such-name report outside 1..count; the formatted n-th name with the too-many-commas report iff formatNth has it (hit as miss); the format error with nothing reported',
+    'C11_abbreviate_is_C12': '[model wiring] bibtex_first_letter / bibtex_abbreviate as the C11 model uses them are, for every string and separator, the Unicode-aware primitives of the C12 model (TeXU.bibtexFirstLetterG / bibtexAbbreviateG with the interpreter tables), which C12 ties to pybtex.bibtex.utils at function level and specifies (C12_first_letter_spec)',
+    'C11_builtin_through_caches': 'composition with the C18 model of builtins.py (_split_names and _format_name_and_reports behind memoize, FIFO eviction at the regenerated capacity): with split_name_list / format_name instantiated by the C11 models (hypotheses F.splitNames = splitNameList, F.formatOne = c11One), in EVERY cache state satisfying the memoize invariant and under capture() (hypothesis captured = some l), format.name$ returns what the cache-free formatNth says: "" + the no-such-name report outside 1..count; the formatted n-th name with the too-many-commas report iff formatNth has it (hit as miss); the format error with nothing reported (c11One / c11ErrTag: glue defined next to the theorem, tied to the code only through the fmtnth family)',
     'C11_nth_malformed_rejected': 'the built-in never formats with a malformed format string: for EVERY name list and every name number inside 1..count a malformed format (Spec.wellformed = false) ends in a syntax error (not the nesting limit, not internal); a name number outside the range yields no-such-name before the format is looked at, for every format',
-    'C11_namepart_repr_partial': 'NamePart.__repr__ followed by the constructor gives back a part that is == (NamePart.__eq__) and has no tie -- hypothesis: the format list is one the PARSER can produce (PartOk: a legal letter run, or no letters and an empty post-text); so far only tested (op c11namepart, key eq_repr)',
+    'C11_namepart_repr_partial': 'NamePart.__repr__ followed by the constructor gives back a part that is == (NamePart.__eq__) and has no tie, PROVED for every format list the PARSER can produce (hypothesis PartOk: a legal letter run, or no letters and an empty post-text); outside PartOk it fails (C11_namepart_repr_neg) and is only tested (op c11namepart, key eq_repr)',
     'C11_namepart_repr_neg': '... and not for every format list: NamePart([x, None, None, "~"]) prints as a list that is read back with pre- and post-text swapped (not ==); and __eq__ ignores the tie: {f~} and {f} are == but format a one-letter name as "A~" and "A" (both only matter to the doctests written with them, not to format.name$)',
 }
 RULE = ('names: the fixed sample, the names of the C04 generator of the same tier (a fixed stride of them, one key format each), the C04 token shapes '
